@@ -243,6 +243,16 @@ fn main() {
       let t = local.block_on(&rt, async move { lat_suite::run_micro_suite(seed, cases).await });
       std::fs::write(&a.out, t).expect("write transcript");
     },
+    "probe_failed_loop" => {
+      let (rt, local) = local_rt();
+      let variant = a.extra.get("variant").cloned().unwrap_or_else(|| "oversize".into());
+      let (log, fails) = local.block_on(&rt, async move { lat_suite::probe_failed_loop(&variant).await });
+      let mut t = log;
+      for f in &fails {
+        t.push_str(&format!("oracle-failure case=0 {f}\n"));
+      }
+      std::fs::write(&a.out, t).expect("write transcript");
+    },
     "probe_stale" => {
       let (rt, local) = local_rt();
       let variant = a.extra.get("variant").cloned().unwrap_or_else(|| "join".into());
